@@ -12,6 +12,12 @@ CHECKS = {
     "C10": dict(level="other", technique="deductive contracts (pyvc: ast->VC, z3/cvc5) on Range.overlaps, the conflict step/loop/final sort of _schedule_rewrites, _apply_rewrites, fix, chain; bounded marker-token drive of the real fix/chain for the textual splice",
                 text="Scheduler kernel proved for all rewrite lists of any length (all-or-nothing, never-overlap, dropped-only-if, precedence order, descending application order, valid-or-unchanged); the difflib-based splice and the end-to-end reading on output text are bounded (enumerated conflict configurations).",
                 note="trusted: z3/cvc5, the pyvc executor's model of Python (DESIGN 1.2), sorted()/set-comprehension models, ast.parse as validity; _do_rewrite only bounded", ref="5/C10"),
+    "C13": dict(level="other", technique="deductive contracts (pyvc) on _get_line_start_charnos, _get_charno, Match.*, _get_position, get_charnos, finditer/findall/search/match/fullmatch given a stated parser-position contract; bounded span oracle (ast.get_source_segment) for that assumption",
+                text="Offsets, spans, line/column and API coherence are proved for all sources, nodes and match sequences, given the stated contract of CPython's node positions; that contract itself (byte columns, line separators) is confronted with the real parser only on the corpus and generated variants (bounded).",
+                note="trusted: z3, pyvc executor, assumed contracts of io.StringIO.readlines/str.splitlines, re.findall for two literal patterns, utf-8 codec bounds; induction schema for the ls-monotone lemma", ref="5/C13"),
+    "C20": dict(level="other", technique="deductive guard obligations (pyvc) on the skip_file return, has_ignore_comment, _do_rewrite (lenient, both target kinds), scheduler step, alter_code veto, remove_nodes filter; bounded line-annotation drive of format_code",
+                text="Every text-editing path under contract is proved to consult the ignore detector before changing text, and the detector is proved equal to its line-scan spec; that no other path edits text is bounded (corpus lines annotated one at a time through the whole pipeline; skip_file through library, file and stdin entry points).",
+                note="trusted: z3, pyvc executor; regexes uninterpreted; rules that splice text outside the contracted paths are bounded only", ref="5/C20"),
     "C17": dict(level="other", technique="deductive table/case-analysis obligations extracted from the real AST (bound analysis, operator tables, _negate_condition induction, constrained-range fold step) discharged by z3; bounded truth tables for sympy-based rules",
                 text="Every (guard, action) of the pairwise bound analysis, every negation-table entry, every path of _negate_condition and one fold step of simplify_constrained_range are proved for all thresholds/integers; sympy-based simplification and sum closed forms are only bounded (truth tables in a box).",
                 note="trusted: z3, extractors, reals for numeric literals; sympy unverified (bounded only); composition argument of the bound analysis stated not mechanised", ref="5/C17"),
